@@ -4,16 +4,21 @@ import itertools
 BASE = [0.318, 1.207, 2.449, 3.061, 4.733, 5.392, 6.871, 7.519]
 
 
-def table_from_perms(T, R, perms, sign=1.0):
+def table_from_perms(T, R, perms, sign=1.0, zero_rank=None):
     """perms: dict level -> permutation (tuple of ranks per trial). Other levels: identity.
-    value(t, r) = BASE[rank_r(t)] - 0.013*r   (distinct per level, improving with r for 'min')."""
+    value(t, r) = BASE[rank_r(t)] - 0.013*r   (distinct per level, improving with r for 'min').
+    zero_rank=k shifts every level so that the trial of rank k reports exactly 0.0 (-0.0 for sign<0) there:
+    metric values that are falsy / have no sign are legal inputs."""
     ident = tuple(range(T))
     tab = []
     for t in range(T):
         row = []
         for r in range(1, R + 1):
             p = perms.get(r, ident)
-            row.append(sign * (BASE[p[t]] - 0.013 * r))
+            if zero_rank is None:
+                row.append(sign * (BASE[p[t]] - 0.013 * r))
+            else:
+                row.append(sign * (BASE[p[t]] - BASE[zero_rank]))
         tab.append(row)
     return tab
 
